@@ -411,8 +411,11 @@ def scan_lexicons(source: AnyPath) -> list[ScanInfo]:
         # apply XML attribute-value normalization and expand references
         return unescape(re.sub(r'[\t\r\n]', ' ', raw.decode('utf-8')))
 
+    comment_re = re.compile(b'<!--.*?-->', flags=re.S)
+
     with open(source, 'rb') as fh:
-        for m in lex_re.finditer(fh.read()):
+        # tags inside of comments are not part of the document
+        for m in lex_re.finditer(comment_re.sub(b'', fh.read())):
             lextype, remainder = m.groups()
             attrs = {
                 _m.group(1).decode("utf-8"): _value(_m.group(3))
